@@ -364,7 +364,10 @@ def make_search(mido, type_, acc):
     def expand(s, hist, op):
         # data payloads grow without bound under +=; expand up to length 3
         d = vars(s['m']).get('data')
-        return d is None or len(d) <= 3
+        try:
+            return d is None or len(d) <= 3
+        except TypeError:
+            return False        # data of an unsized type: reported, not expanded
 
     return Search(build, ops, apply, check, key, expand=expand)
 
